@@ -26,7 +26,8 @@ UNITS = {
     'patch':      ('patch.cpp',      ['jsoncons_ext/jsonpointer/', 'jsoncons_ext/jsonpatch/', 'jsoncons_ext/mergepatch/']),
     'control':    ('control.cpp',    ['drivers/control.cpp']),
     'reflect':    ('reflect.cpp',    ['include/jsoncons/reflect/', 'include/jsoncons/decode_json.hpp', 'include/jsoncons/encode_json.hpp',
-                                      'jsoncons_ext/cbor/decode_cbor.hpp', 'jsoncons_ext/cbor/encode_cbor.hpp', 'include/jsoncons/staj_cursor.hpp', 'drivers/']),
+                                      'jsoncons_ext/cbor/decode_cbor.hpp', 'jsoncons_ext/cbor/encode_cbor.hpp', 'include/jsoncons/staj_cursor.hpp',
+                                      'include/jsoncons/staj_iterator.hpp', 'drivers/']),
 }
 
 class AnalysisBroken(Exception):
